@@ -61,7 +61,7 @@ func (c05) Budget(tier string) runner.Budget {
 	if tier == "thorough" {
 		return runner.Budget{Plans: 6000, PlansPerProc: 6, Wall: 14 * time.Minute}
 	}
-	return runner.Budget{Plans: 400, PlansPerProc: 5, Wall: 45 * time.Second, MinPlans: 300}
+	return runner.Budget{Plans: 480, PlansPerProc: 5, Wall: 50 * time.Second, MinPlans: 400}
 }
 
 func (c05) Describe() runner.Description {
@@ -104,7 +104,7 @@ func (c05) Gen(seed uint64, tier string) json.RawMessage {
 		if r.Chance(0.4) {
 			comp.Skip = uint64(r.Range(1, 3)) // lands on a height the old branch used differently (or not at all)
 		}
-		if r.Chance(0.35) {
+		if r.Chance(0.5) {
 			// weight contest decided at the fork point: exactly equal TotalQN, prove values of the whole
 			// neighbourhood drawn from one small range, the competitor possibly landing on a height the
 			// old branch filled with a later block (fork choice must compare with the FIRST block after
@@ -118,6 +118,19 @@ func (c05) Gen(seed uint64, tier string) json.RawMessage {
 				p.Blocks[i].PV = int64(r.Range(1, 5))
 			}
 			comp.PV = int64(r.Range(1, 5))
+			if r.Chance(0.5) {
+				// the three values that matter (first old block after the fork point, old tip, competitor)
+				// all different, in a seeded order
+				pv := r.Perm(3)
+				p.Blocks[d].PV, p.Blocks[L-1].PV, comp.PV = int64(pv[0]+1), int64(pv[1]+1), int64(pv[2]+1)
+				if L-1 == d {
+					comp.PV = int64(pv[2]%2 + 1 + r.Intn(2))
+				}
+			}
+			if r.Chance(0.5) {
+				// the old branch itself left the slot right after the fork point empty
+				p.Blocks[d].Skip = uint64(r.Range(1, 2))
+			}
 		}
 		if r.Chance(0.3) && len(p.Blocks[d].Txs) > 0 {
 			comp.ReTx = d + 1 // carries the same transactions as the block it replaces
